@@ -2,9 +2,11 @@
 package main
 
 import (
+	"bytes"
 	"encoding/json"
 	"fmt"
 	"io"
+	"mime/multipart"
 	"net/url"
 	"reflect"
 	"strconv"
@@ -185,7 +187,8 @@ func convert(k reflect.Kind, s string) (interface{}, error) {
 }
 
 type reqSpec struct {
-	vals map[string]map[string][]string // source -> key -> values
+	multipart bool                           // form values travel as multipart/form-data
+	vals      map[string]map[string][]string // source -> key -> values
 }
 
 func buildReq(rs reqSpec, fields []fieldSpec) (*protocol.Request, param.Params) {
@@ -243,9 +246,25 @@ func buildReq(rs reqSpec, fields []fieldSpec) (*protocol.Request, param.Params) 
 				f.Add(k, v)
 			}
 		}
-		req.Header.SetContentTypeBytes([]byte("application/x-www-form-urlencoded"))
-		req.SetBody([]byte(f.Encode()))
-		req.Header.SetContentLength(len(f.Encode()))
+		if rs.multipart {
+			// the same form values as a multipart/form-data body (a second body encoding
+			// behind the form tag)
+			var mb bytes.Buffer
+			mw := multipart.NewWriter(&mb)
+			for k, vs := range f {
+				for _, v := range vs {
+					mw.WriteField(k, v)
+				}
+			}
+			mw.Close()
+			req.Header.SetContentTypeBytes([]byte(mw.FormDataContentType()))
+			req.SetBody(mb.Bytes())
+			req.Header.SetContentLength(mb.Len())
+		} else {
+			req.Header.SetContentTypeBytes([]byte("application/x-www-form-urlencoded"))
+			req.SetBody([]byte(f.Encode()))
+			req.Header.SetContentLength(len(f.Encode()))
+		}
 	}
 	return req, ps
 }
@@ -265,8 +284,11 @@ func reference(fields []fieldSpec, rs reqSpec) (map[string]string, bool) {
 				continue
 			}
 			vs := rs.vals[s][k]
-			if s == "form" && len(vs) == 0 {
-				vs = rs.vals["query"][k] // documented: form falls back to query
+			if s == "form" && len(vs) == 0 && !f.slice {
+				// documented: a form-tagged scalar falls back to the URL query argument of the
+				// same name; slice fields have no such fallback (they follow the statement as
+				// written: only sources named in the tags)
+				vs = rs.vals["query"][k]
 			}
 			if len(vs) > 0 {
 				texts = vs
@@ -471,6 +493,24 @@ func genReqSpec(r *mon.Rand, fields []fieldSpec) reqSpec {
 	}
 	if len(rs.vals["json"]) > 0 {
 		rs.vals["form"] = map[string][]string{}
+	}
+	// the URL query sometimes carries an argument named like a field's form key (the form
+	// tag falls back to the query only when the body does not carry the key)
+	for _, f := range fields {
+		if key, ok := f.tags["form"]; ok && r.Chance(4) {
+			rs.vals["query"][key] = []string{genValue(r, f.kind, 3)}
+		}
+	}
+	rs.multipart = r.Chance(3)
+	for _, vs := range rs.vals["form"] {
+		for _, v := range vs {
+			if v == "" {
+				// a multipart part with an empty value: hertz reads it as absent (unlike k= in a
+				// urlencoded body); whether that counts as "present" is not pinned down by the
+				// property, so the combination is not generated
+				rs.multipart = false
+			}
+		}
 	}
 	return rs
 }
